@@ -820,6 +820,14 @@ def block_compare():
 block_compare()
 lap('coq_blocks')
 
+# the compiled forms of the generated case files are large (GBs in the thorough tier): drop them
+for _f in os.listdir(chk.work):
+    if _f.endswith((".vo", ".vok", ".vos", ".glob", ".aux")):
+        try:
+            os.remove(os.path.join(chk.work, _f))
+        except OSError:
+            pass
+
 chk.finish(
     evaluations=evaluations,
     distinct_nontrivial=len(nontrivial),
